@@ -25,6 +25,7 @@ type streamWS struct {
 	trailer    metadata.MD
 	params     params
 	maxRecv    int // maximum size of a received message, 0 = unlimited
+	recvEOF    bool
 	recvN      int
 	sendN      int
 	sentHeader bool
@@ -83,6 +84,9 @@ func (s *streamWS) RecvMsg(m interface{}) error {
 	s.recvN += 1
 	args := m.(proto.Message)
 
+	if s.recvEOF {
+		return io.EOF
+	}
 	if s.method.hasBody {
 		cur := args.ProtoReflect()
 		for _, fd := range s.method.body {
@@ -97,6 +101,7 @@ func (s *streamWS) RecvMsg(m interface{}) error {
 			if errors.As(err, &closed) {
 				switch closed.Code {
 				case ws.StatusNormalClosure, ws.StatusGoingAway, ws.StatusNoStatusRcvd:
+					s.recvEOF = true
 					return io.EOF // the client ended the stream
 				}
 			}
